@@ -146,14 +146,14 @@ class Scoreboard:
 
         intervals: list[TimeInterval] = []
         duration = 0
-        start = 0
+        start = -1  # -1 = no run open (0 is a valid slot index)
 
         idx = startIdx
         while idx <= endIdx:
             # yield/predicate check
             val = self.sb[idx] if idx < len(self.sb) else None  # Boundary check
             if predicate(val) and idx < endIdx:
-                if start == 0:
+                if start < 0:
                     start = idx
                 duration += 1
             else:
@@ -165,9 +165,11 @@ class Scoreboard:
                         if current_idx > eIdx:
                             current_idx = eIdx
 
-                        intervals.append(TimeInterval(self.idxToDate(start), self.idxToDate(current_idx)))
+                        # A run that lies entirely outside the query window clips to nothing
+                        if start < current_idx:
+                            intervals.append(TimeInterval(self.idxToDate(start), self.idxToDate(current_idx)))
                     duration = 0
-                    start = 0
+                    start = -1
             idx += 1
 
         return intervals
